@@ -36,7 +36,7 @@ def render(toks, sep=" "):
     for k, v in toks:
         out.append(v)
     text = sep.join(out)
-    return text.encode("utf-8")
+    return text.encode("utf-8", "surrogateescape")   # lone surrogates U+DC80..DCFF stand for raw bytes 80..FF
 
 
 def render_layout(rng, toks):
@@ -59,7 +59,7 @@ def render_layout(rng, toks):
             out.append(rng.choice(seps))
         elif k in ("id", "tag", "num") and nxt in ("str",):
             out.append(rng.choice(["", " "]))
-    return "".join(out).encode("utf-8")
+    return "".join(out).encode("utf-8", "surrogateescape")
 
 
 # only the extensions that own COMMANDS: tags and match types (copy, mailbox, imap4flags on fileinto/keep,
@@ -174,11 +174,16 @@ STR_VALUES = ['"a"', '"INBOX.x"', '"café"', '"with \\"quote\\""', '"back\\\\sla
               '"line\\\nbreak"' if False else '"two\nlines"', '"x@example.org"', '"日本"']
 
 
+ML_VALUES = ["text:\nhello\n.\n", "text:\n..dot\nmore\n.\n", "text:\r\nx\r\n.\r\n", "text:\n$x$\n.\n",
+             "text:\n.\n", "text:\r\n.\r\n", "text: #c\n.\n", "text:\n\n.\n", "text:\n...three\n.\n", "text:\n....\n..\n.\n",
+             "text: \t\nx \n.\n", "text:\n.x\n.\n"]
+
+
 def gen_string(rng, ty):
     if ty == "s":
         r = rng.random()
         if r < 0.1:
-            return [T("ml", rng.choice(["text:\nhello\n.\n", "text:\n..dot\nmore\n.\n", "text:\r\nx\r\n.\r\n", "text:\n$x$\n.\n"]))]
+            return [T("ml", rng.choice(ML_VALUES))]
         return [T("str", rng.choice(STR_VALUES))]
     if ty == "sl":
         r = rng.random()
@@ -275,6 +280,117 @@ def repeat_cases():
                     else:
                         body = [T("id", name)] + args + [T(";", ";")]
                     out.append(req + body)
+    return out
+
+
+def value_shape_cases():
+    """Deterministic:
+    (a) every multi-line form (empty body, comment after text:, CRLF, dot-stuffed lines, blank lines) as the
+        argument of reject / fileinto / vacation / redirect / set;
+    (b) for every command x group x tag that takes a parameter: the parameter replaced by a list, a one-item
+        list, an identifier, a number, a tag, a string, a parenthesised test, a block, nothing;
+    (c) strings with bytes that are not valid UTF-8 in every value position of a few commands;
+    (d) tests that are still incomplete when '{' arrives (error position), for every test with tags."""
+    out = []
+    pre = PREAMBLE
+    # (a)
+    for ml in ML_VALUES:
+        for head in ([T("id", "reject")], [T("id", "fileinto")], [T("id", "redirect")], [T("id", "vacation")],
+                     [T("id", "vacation"), T("tag", ":subject"), T("ml", ml)],
+                     [T("id", "set"), T("str", '"v"')]):
+            out.append(pre + head + [T("ml", ml), T(";", ";")])
+            out.append(pre + [T("id", "if"), T("id", "true"), T("{", "{")] + head + [T("ml", ml), T(";", ";"), T("}", "}")])
+        out.append(pre + [T("id", "if"), T("id", "header"), T("ml", ml), T("ml", ml), T("{", "{"), T("}", "}")])
+    # (b)
+    wrong = [[T("[", "["), T("str", '"i;octet"'), T("]", "]")], [T("[", "["), T("str", '"gt"'), T(",", ","), T("str", '"x"'), T("]", "]")],
+             [T("id", "true")], [T("id", "foo")], [T("num", "7")], [T("tag", ":is")], [T("str", '"zz"')],
+             [T("(", "("), T("id", "true"), T(")", ")")], [T("{", "{"), T("}", "}")], [], [T("ml", "text:\nx\n.\n")],
+             [T("[", "["), T("]", "]")]]
+    for name, spec in sorted(S.SPEC.items()):
+        if spec.get("test") or spec.get("testlist"):
+            continue
+        for grp in spec["groups"]:
+            for tag in sorted(grp):
+                ptype, pvals, ext = grp[tag]
+                if ptype is None:
+                    continue
+                pos = []
+                for ty in spec["pos"]:
+                    pos.append(T("tag", ty[1][0]) if isinstance(ty, tuple) else (T("num", "10") if ty == "n" else T("str", '"v"')))
+                for w in wrong:
+                    args = [T("tag", tag)] + w + pos
+                    if spec["kind"] == "test":
+                        out.append(pre + [T("id", "if"), T("id", name)] + args + [T("{", "{"), T("}", "}")])
+                    else:
+                        out.append(pre + [T("id", name)] + args + [T(";", ";")])
+    # (c)
+    bad = ['"R\udce9union"', '"\udcff"', '"a\udcc3"', '"\udc80\udc80"', '"ok\udce8 \udce9"']
+    for b in bad:
+        out.append(pre + [T("id", "fileinto"), T("str", b), T(";", ";")])
+        out.append(pre + [T("id", "redirect"), T("str", b), T(";", ";")])
+        out.append(pre + [T("id", "if"), T("id", "header"), T("tag", ":is"), T("str", b), T("str", '"v"'), T("{", "{"), T("}", "}")])
+        out.append(pre + [T("id", "if"), T("id", "header"), T("tag", ":is"), T("str", '"v"'),
+                          T("[", "["), T("str", '"x"'), T(",", ","), T("str", b), T("]", "]"), T("{", "{"), T("}", "}")])
+        out.append(pre + [T("id", "vacation"), T("tag", ":subject"), T("str", b), T("str", '"r"'), T(";", ";")])
+        out.append(pre + [T("id", "reject"), T("ml", "text:\n" + b.strip('"') + "\n.\n"), T(";", ";")])
+        out.append(pre + [T("id", "require"), T("str", b), T(";", ";")])
+    # (d)
+    for name, spec in sorted(S.SPEC.items()):
+        if spec["kind"] != "test" or spec.get("test") or spec.get("testlist"):
+            continue
+        prefixes = [[]]
+        for grp in spec["groups"]:
+            for tag in sorted(grp)[:2]:
+                ptype, pvals, ext = grp[tag]
+                a = [T("tag", tag)]
+                if ptype is not None:
+                    a.append(T("str", pvals[0]) if pvals else (T("num", "7") if ptype == "n" else T("str", '"p"')))
+                prefixes.append(a)
+        if spec["pos"]:
+            first = spec["pos"][0]
+            prefixes.append([T("tag", first[1][0]) if isinstance(first, tuple) else (T("num", "10") if first == "n" else T("str", '"v"'))])
+        for a in prefixes:
+            for tail in ([T("{", "{")], [T("{", "{"), T("id", "stop"), T(";", ";"), T("}", "}")], [T(";", ";")], [T(",", ",")],
+                         [T(")", ")")], []):
+                out.append(pre + [T("id", "if"), T("id", name)] + a + tail)
+                out.append(pre + [T("id", "if"), T("id", "anyof"), T("(", "("), T("id", name)] + a + tail)
+    return out
+
+
+def brace_after_prefix_cases():
+    """(tokens, index of the '{'): `if <test> <some leading arguments> {` -- everything before the '{' is a prefix of
+    a valid script, so an error can only be reported at the '{' or later (C18)."""
+    out = []
+    for name, spec in sorted(S.SPEC.items()):
+        if spec["kind"] != "test" or spec.get("test") or spec.get("testlist"):
+            continue
+        need = [spec["ext"]] if spec["ext"] else []
+        prefixes = [([], [])]
+        for grp in spec["groups"]:
+            for tag in sorted(grp):
+                ptype, pvals, ext = grp[tag]
+                a = [T("tag", tag)]
+                if ptype is not None:
+                    a.append(T("str", pvals[0]) if pvals else (T("num", "7") if ptype == "n" else T("str", '"p"')))
+                prefixes.append((a, [ext] if ext else []))
+        base = list(prefixes)
+        for (a, e1) in base[1:4]:
+            for (b, e2) in base[4:7]:
+                prefixes.append((a + b, e1 + e2))
+        for a, exts in prefixes:
+            req = []
+            allx = sorted(set(need + exts))
+            if allx:
+                req = [T("id", "require"), T("[", "[")]
+                for i, e in enumerate(allx):
+                    if i:
+                        req.append(T(",", ","))
+                    req.append(T("str", '"%s"' % e))
+                req += [T("]", "]"), T(";", ";")]
+            for wrap in ([], [T("id", "not")], [T("id", "anyof"), T("(", "(")]):
+                head = req + [T("id", "if")] + wrap + [T("id", name)] + a
+                for tail in ([T("{", "{")], [T("{", "{"), T("id", "stop"), T(";", ";"), T("}", "}")]):
+                    out.append((head + tail, len(head)))
     return out
 
 
